@@ -6,6 +6,7 @@ import (
 	"go/types"
 	"math"
 	"path/filepath"
+	"strconv"
 	"strings"
 
 	"golang.org/x/tools/go/ssa"
@@ -756,6 +757,55 @@ func builtinIntrinsics() map[string]Intrinsic {
 		var v int64
 		if _, err := fmt.Sscanf(s, "%d", &v); err != nil || fmt.Sprint(v) != s {
 			return TupleV{m.ctx.BV(0, 64), m.newError("strconv.Atoi: invalid syntax", nil)}
+		}
+		return TupleV{m.ctx.BV(uint64(v), 64), IfaceV{}}
+	}
+	// sort.Slice / sort.SliceStable go through reflect's swapper; modelled as an insertion sort that
+	// calls the real less closure (one admissible behaviour of the unstable sort: ties keep order).
+	I["sort.Slice"] = func(m *Machine, fn *ssa.Function, a []Value) Value {
+		iv, ok := a[0].(IfaceV)
+		if !ok {
+			m.unsupported("sort.Slice of a non-interface value")
+		}
+		sl, ok := iv.V.(SliceV)
+		if !ok {
+			m.unsupported("sort.Slice of a non-slice")
+		}
+		for i := 1; i < len(sl.A); i++ {
+			for j := i; j > 0; j-- {
+				r := m.callValue(a[1], []Value{m.ctx.BV(uint64(j), 64), m.ctx.BV(uint64(j-1), 64)}, nil)
+				if !m.branch(term(r)) {
+					break
+				}
+				sl.A[j], sl.A[j-1] = sl.A[j-1], sl.A[j]
+			}
+		}
+		return nil
+	}
+	I["sort.SliceStable"] = I["sort.Slice"]
+	I["strconv.ParseUint"] = func(m *Machine, fn *ssa.Function, a []Value) Value {
+		s, ok := concStr(a[0])
+		if !ok {
+			m.unsupported("strconv.ParseUint of a symbolic string")
+		}
+		base := int(m.concInt(a[1], "ParseUint base"))
+		bits := int(m.concInt(a[2], "ParseUint bitSize"))
+		v, err := strconv.ParseUint(s, base, bits)
+		if err != nil {
+			return TupleV{m.ctx.BV(v, 64), m.newError(err.Error(), nil)}
+		}
+		return TupleV{m.ctx.BV(v, 64), IfaceV{}}
+	}
+	I["strconv.ParseInt"] = func(m *Machine, fn *ssa.Function, a []Value) Value {
+		s, ok := concStr(a[0])
+		if !ok {
+			m.unsupported("strconv.ParseInt of a symbolic string")
+		}
+		base := int(m.concInt(a[1], "ParseInt base"))
+		bits := int(m.concInt(a[2], "ParseInt bitSize"))
+		v, err := strconv.ParseInt(s, base, bits)
+		if err != nil {
+			return TupleV{m.ctx.BV(uint64(v), 64), m.newError(err.Error(), nil)}
 		}
 		return TupleV{m.ctx.BV(uint64(v), 64), IfaceV{}}
 	}
